@@ -16,9 +16,9 @@ CLAIMED = {
  "C01": C("Step lemmas over unbounded integers on the real next_*_state functions, on one iteration of _form_rings_bilocally from an arbitrary pre-state and on one iteration of _derive_mol_from_symbols from an arbitrary loop-head state with the recursive call replaced by its contract (an induction step: counts never exceed capacities and the state never promises more than the current atom has free); ring-label allocation with up to 120/400 earlier rings; mol_to_smiles on solver-chosen ring-bond sets over two fragments; and every string of N symbols (A_core N<=6/8, two-element alphabet with '.' N<=3/4) under every table with capacities 0..9: the real decoder's output is read by an independent SMILES reader and the valence inequality is an unsat query over the table variables; RDKit clause on concrete outputs. Known finding %100 reported as KNOWN-FINDING. Bounded model checking plus inductive step lemmas; the composition of the lemmas into all lengths is an argument in DESIGN.md, not a solver verdict.", "6/C01"),
  "C02": C("Differential check on the same symbolic path: the real decoder (output read back by O-READ) against O-DERIV, an independent executable rendering of derivation.rst, for every string of N symbols over four alphabets (grammar, stereo/isotope, capacity-0 and out-of-grammar symbols, fragments and [nop]) and every table 0..9: atoms, bonds, orders, stereo marks, written neighbour order, DecoderError iff the derivation reaches a symbol outside the grammar; plus state-function equalities, the index-reading lemma (also with fewer symbols than requested) and the ring-placement step lemma (ring bonds first, in formation order) with decoder-level witnesses.", "6/C02"),
  "C03": C("Real encoder(strict=True) then decoder under the same table for every string of N SMILES tokens and every combination of slot alternatives in fourteen spelling templates (branch order, ring labels, bracket spellings, label order on shared atoms, explicit aromatic bonds, 2-5 components, ring spans needing 2-3 index symbols), and for every molecule skeleton of 5-6(/7) atoms in every writing order (M-SKEL: the solver chooses the spanning tree and the ring bonds), relaxed table, presets, and a free table; input and output are compared atom by atom and bond by bond by an independent reader, aromatic bonds against an independent Kekule test.", "6/C03"),
- "C04": C("Same pipeline on 14 stereo templates (chiral centres opening/closing rings in every label order, ring digit between branches, implicit H, cis/trans marks on chain and on either end of ring closures) and uniform stereo token strings; handedness judged by permutation parity of written neighbour sequences, marks per bond end.", "6/C04"),
+ "C04": C("Same pipeline on 14 stereo templates (chiral centres opening/closing rings in every label order, ring digit between branches, implicit H, cis/trans marks on chain and on either end of ring closures) uniform stereo token strings, and every skeleton of 5(/6) atoms in every writing order with one chiral centre at every possible atom; handedness judged by permutation parity of written neighbour sequences, marks per bond end.", "6/C04"),
  "C05": C("encoder(strict=True) on aromatic token strings, 5/6(/7)-ring and fused-system templates with every atom kind a slot, and 20 (+C60) systems respelled from every start atom: accepted outputs must give each standard-kind atom exactly its pi need and at most one double bond, rejections must not be kekulizable by an independent matching oracle, acceptance must not depend on the spelling; every aromatic skeleton of 4-6(/8) atoms a SMILES can spell (spanning tree, ring bonds and ring-bond symbols chosen by the solver) through encoder and decoder; find_perfect_matching on every labelled graph with <=6/8 nodes and degree <=3 against brute force (edges are solver variables).", "6/C05"),
- "C06": C("strict=False then strict=True on the same path with the table symbolic: strict raises iff the independent bond count exceeds the capacity (solver-decided over nine table keys), same string otherwise, and no branch condition of the strict=False call mentions a table variable; on non-aromatic and on kekulizable aromatic inputs; plus a table change through the real setter between two strict calls (tables A and B symbolic).", "6/C06"),
+ "C06": C("strict=False then strict=True on the same path with the table symbolic: strict raises iff the independent bond count exceeds the capacity (solver-decided over nine table keys), same string otherwise, and no branch condition of the strict=False call mentions a table variable; on non-aromatic and on kekulizable aromatic inputs, including every skeleton of 4(/5) atoms with single/double/triple tree and ring bonds; plus a table change through the real setter between two strict calls (tables A and B symbolic).", "6/C06"),
  "C07": C("Real set_semantic_constraints with key spellings and free values: accepted => alphabet equals the described set (as a formula over the values) and every symbol decodes; strings of N<=4/6 symbols assumed to lie in the robust alphabet of a free table decode without error and obey it; after a rejected update, and after a second accepted table handed over as a fresh dict, as the same dict edited in place or as an equal dict, alphabet and strings follow the table in force.", "6/C07"),
  "C08": C("Every string of N symbols over grammar, legacy and malformed symbols, every string of N characters over 16 characters, symbol cells mixed with stray brackets, and grammar symbols under a free table, with compatible and attribute as free booleans: only DecoderError may escape, table and presets unchanged, paths end within a decision budget; also decode / table change / decode again with H-bearing symbols.", "6/C08"),
  "C09": C("Every string of N<=3/4 characters over 32 characters and N<=3/5 SMILES tokens with strict and attribute free: and aromatic ring templates (kekulizable or not): only EncoderError may escape.", "6/C09"),
